@@ -1671,6 +1671,12 @@ impl DistributedTxCoordinator {
             )));
         }
 
+        // The completion is logged before the locks go, as in commit()
+        self.log_wal_entry(&TxWalEntry::TxComplete {
+            tx_id,
+            outcome: TxOutcome::Committed,
+        })?;
+
         // Release any remaining locks
         for vote in tx.votes.values() {
             if let PrepareVote::Yes { lock_handle, .. } = vote {
@@ -1709,6 +1715,12 @@ impl DistributedTxCoordinator {
                 "transaction {tx_id} not in aborting phase"
             )));
         }
+
+        // The completion is logged before the locks go, as in abort()
+        self.log_wal_entry(&TxWalEntry::TxComplete {
+            tx_id,
+            outcome: TxOutcome::Aborted,
+        })?;
 
         // Release any remaining locks
         for vote in tx.votes.values() {
@@ -2136,12 +2148,28 @@ impl DistributedTxCoordinator {
         let mut to_remove = Vec::new();
 
         for (tx_id, tx) in pending.iter_mut() {
+            // A decision taken here is handed out by get_pending_decisions(), so it is logged
+            // before it is taken; if the log refuses the record the transaction stays as it is.
+            let decide = |tx: &mut DistributedTransaction, to: TxPhase| {
+                let logged = self
+                    .log_wal_entry(&TxWalEntry::PhaseChange {
+                        tx_id: *tx_id,
+                        from: tx.phase,
+                        to,
+                    })
+                    .is_ok();
+                if logged {
+                    tx.phase = to;
+                }
+                logged
+            };
             match tx.phase {
                 TxPhase::Preparing => {
                     if tx.is_timed_out() {
                         // Timed out during prepare - abort
-                        tx.phase = TxPhase::Aborting;
-                        stats.timed_out += 1;
+                        if decide(tx, TxPhase::Aborting) {
+                            stats.timed_out += 1;
+                        }
                     } else {
                         // Still waiting for votes
                         stats.pending_prepare += 1;
@@ -2149,16 +2177,19 @@ impl DistributedTxCoordinator {
                 },
                 TxPhase::Prepared => {
                     if tx.is_timed_out() {
-                        tx.phase = TxPhase::Aborting;
-                        stats.timed_out += 1;
+                        if decide(tx, TxPhase::Aborting) {
+                            stats.timed_out += 1;
+                        }
                     } else if tx.all_yes() {
                         // All voted yes - proceed to commit
-                        tx.phase = TxPhase::Committing;
-                        stats.pending_commit += 1;
+                        if decide(tx, TxPhase::Committing) {
+                            stats.pending_commit += 1;
+                        }
                     } else if tx.any_no() {
                         // Some voted no - abort
-                        tx.phase = TxPhase::Aborting;
-                        stats.pending_abort += 1;
+                        if decide(tx, TxPhase::Aborting) {
+                            stats.pending_abort += 1;
+                        }
                     } else {
                         // Still waiting for more votes
                         stats.pending_prepare += 1;
